@@ -134,6 +134,12 @@ MetaTag(st, attrs, D) ==
 \* HTMLParser._parse: on _ReparseException reset and run the main loop again
 Restarted(st) == [st EXCEPT !.pc = "parsing"]
 
+\* does a meta element with these attributes carry a declaration that the "in head" rules act on while the
+\* encoding is tentative (a known label; UTF-16 counts: it means UTF-8)
+Declares(attrs, D) ==
+    LET c == MetaCall([conf |-> "tentative"], attrs, D) IN
+    c.call /\ GetEncoding(c.label) # "none" /\ ~(IsUtf16(GetEncoding(c.label)) /\ "latemeta-utf16-no-switch" \in D)
+
 \* --- the property's clauses on one state / one step ---
 CertainStable(st, st2) == st.conf = "certain" => (st2.enc = st.enc /\ st2.conf = "certain")
 ReportedIsUsed(st) == st.with = st.enc
